@@ -9,8 +9,8 @@ INFO = {
                   'online monitor on the pastified AST incl. rtamt.semantics.stl.discrete_time.online.precedes_timed_operation',
                   'rtamt.spec.abstract_specification.AbstractOnlineSpecification.pastify'],
     'bounds': {'quick': 'F-fut: bounded-future operators x bounds, chains depth<=2, siblings of different horizons, future under past / past '
-                        'under future; N = h+1..h+4 (h<=6); unit spellings s/ms with period 1s and 500ms; LTL pastifier on next-chains',
-               'thorough': 'chains depth<=3, all F2 combinations of future with past/Boolean/arithmetic operators, seeded depth-3/4 formulas, N up to h+5'},
+                        'under future; N = h+1..h+4 (h<=6); unit spellings s/ms with period 1s and 500ms; per-operator step: every operator over operands next^h1(x), next^h2(y), h1,h2 in 0..2, at the root and below a sibling of larger horizon; iff/xor/comparison connectives next to shorter siblings at depth 3; LTL pastifier on next-chains',
+               'thorough': 'chains depth<=3, all F2 combinations of future with past/Boolean/arithmetic operators, 2000 seeded depth-3/4 formulas, N up to h+5'},
     'outside': 'horizons above 8 samples; formulas deeper than 4',
     'assumptions': ['horizon h is computed by the check itself (refsem.hor), not taken from rtamt',
                     'oracle: update_i(pastified) == rho(phi, w[0..i], i-h) for i >= h (robustness at i-h on the prefix seen so far)'],
@@ -234,13 +234,37 @@ def obligations(tier, rng):
                     for f in ([(k, Z, inner), (k, inner, Z)] if k != 'until_t' else [(k, Z, inner, 0, 1), (k, inner, Z, 0, 1)]):
                         h = hor(f)
                         out.append(ob('C03', 'delay', 'sibling3/%s/N=%d' % (text(f), h + 3), f=f, N=h + 3))
+    # per-operator step: every operator over operands of EVERY small horizon pair (operand = next^h(var)), at the root and below a
+    # sibling with a larger horizon (so that the operator is pastified at a non-zero remaining horizon)
+    def nx(h, v):
+        for _ in range(h):
+            v = ('next', v)
+        return v
+    un_ops = ['not', 'neg', 'abs', 'rise', 'fall', 'prev', 's_prev', 'next', 's_next', 'once', 'historically']
+    bin_ops = ['and', 'or', 'implies', 'iff', 'xor', 'add', 'sub', 'mul', 'leq', 'lt', 'geq', 'gt', 'eq', 'neq', 'since']
+    hs = (0, 1, 2)
+    steps = []
+    for h1 in hs:
+        steps += [(k, nx(h1, X)) for k in un_ops] + [(k, nx(h1, X), a, b) for k in refsem.UNT for a, b in [(0, 1), (1, 2)]]
+        for h2 in hs:
+            if h1 == h2 == 0:
+                continue
+            steps += [(k, nx(h1, X), nx(h2, Y)) for k in bin_ops] + [(k, nx(h1, X), nx(h2, Y), a, b) for k in refsem.BINT for a, b in [(0, 1), (1, 2)]]
+    for f in steps:
+        if hor(f) == 0:
+            continue
+        ctxs = [f, ('or', nx(hor(f) + 1, Z), f)]
+        if quick and (refsem.size(f) > 4 and f[0] not in ('iff', 'xor', 'until_t', 'since_t', 'unless_t', 'since', 'implies', 'sub', 'geq')):
+            ctxs = ctxs[:1]
+        for g in ctxs:
+            out.append(ob('C03', 'delay', 'hstep/%s/N=%d' % (text(g), hor(g) + 3), f=g, N=hor(g) + 3))
     if not quick:
-        for i in range(400):
+        for i in range(2000):
             f = refsem.gen_formula(rng, rng.choice([3, 4]),
                                    ['eventually_t', 'always_t', 'until_t', 'next', 'and', 'or', 'not', 'once_t', 'historically_t',
                                     'since', 'prev', 'geq', 'sub', 'abs', 'implies', 'once'], [(0, 1), (1, 2), (0, 2)], ('x', 'y'))
             h = hor(f)
-            if h > 7 or not refsem.has_future(f):
+            if h > 7 or h == 0:
                 continue
             out.append(ob('C03', 'delay', 'F3/%d/%s/N=%d' % (i, text(f), h + 3), f=f, N=h + 3))
     for f, txt, period, unit in UNIT_CASES:
